@@ -1,8 +1,8 @@
 package sim
 
 func init() {
-	generators["C06"] = genC06
-	generators["C07"] = genC07
+	generators["C06"] = func(p *Plan, r *RNG) { withRace(p, r, 5, func() { genC06(p, r) }) }
+	generators["C07"] = func(p *Plan, r *RNG) { withRace(p, r, 5, func() { genC07(p, r) }) }
 }
 
 var lifetimesReq = []int64{-1, 1, 2, 5, 30, 59, 60, 600, 3599, 3600, 3601, 86400, 4294967295}
